@@ -163,17 +163,17 @@ Proof.
   (* what __fill_missing leaves: header <= data, header bounded *)
   pstep.
   apply pspecE_post with (Q := fun x _ => let '(header, footer, dat, end_) := x in
-                                          header <= dat <= zlen d + 4294967296 + 64).
+                                          header <= dat <= header + 32 /\ header <= zlen d + 32).
   { destruct (af_header fm) as [h|] eqn:Eh.
     - destruct Hh as [Hh|Hh]; [discriminate|]. inversion Hh; subst h.
       psteps; lia.
     - destruct (af_footer fm) as [f|] eqn:Ef; [|pstep].
       pstep. destruct ((flags / ape_HAS_HEADER) mod 2 =? 1); lia. }
-  intros [[[header footer] dat] end_] p2 Hhd. cbv beta.
+  intros [[[header footer] dat] end_] p2 [Hhd Hhd2]. cbv beta.
   set (size' := match footer with Some _ => size - 32 | None => size end).
   assert (Hs' : size' < 4294967296) by (unfold size'; destruct footer; lia).
-  pstep. apply Z.ltb_ge in Heqb0.
-  pstep. apply Z.ltb_ge in Heqb1.
+  pstep; [pstep|]. pstep; [pstep|].
+  repeat match goal with H : (_ <? 0) = false |- _ => apply Z.ltb_ge in H end.
   psteps. eapply pspecE_post; [apply fix_loop_spec; unfold c04_two62; lia|].
   intros start p3 Hst. cbv beta. psteps. exact I.
 Qed.
